@@ -16,13 +16,13 @@ CRON_RULE = ("one evaluation = one simulated run (one synctest bubble) of a seed
              "distinct = distinct hashes of the full sequence of scheduler decisions (action kind + target) among non-trivial runs.")
 
 CAMPAIGNS = {
-    "C01": {"variants": [V("cron-tick", 1600, 60, 120000, 1500)], "rule": CRON_RULE,
+    "C01": {"variants": [V("cron-tick", 4800, 60, 120000, 1500)], "rule": CRON_RULE,
             "expect_probes": ["probe.cron_cap_hit", "probe.cron_exact_checked", "probe.cron_complete_checked", "proc.stall"],
             "shrink_s": {"quick": 45, "thorough": 240}},
-    "C03": {"variants": [V("cron-tick", 1600, 60, 120000, 1500)], "rule": CRON_RULE,
+    "C03": {"variants": [V("cron-tick", 4800, 60, 120000, 1500)], "rule": CRON_RULE,
             "expect_probes": ["probe.cron_flush_processed", "probe.cron_unstable_pass"],
             "shrink_s": {"quick": 45, "thorough": 240}},
-    "C04": {"variants": [V("cron-tick", 1600, 60, 100000, 1500)], "rule": CRON_RULE,
+    "C04": {"variants": [V("cron-tick", 4800, 60, 100000, 1500)], "rule": CRON_RULE,
             "expect_probes": ["proc.restart", "probe.cron_cap_hit"],
             "shrink_s": {"quick": 45, "thorough": 240}},
 }
@@ -56,12 +56,12 @@ FULL_RULE = ("one evaluation = one simulated run of a seeded plan against the co
              "fixpoint where the liveness clauses are asserted. A run is non-trivial if the property's monitor judged at least one "
              "non-vacuous instance (see nonTrivialFull in preset_full.go); distinct = distinct hashes of the full scheduler decision sequence.")
 
-for _p, _q, _t in [("C02", 1600, 60000), ("C05", 1600, 60000), ("C06", 1600, 60000), ("C07", 1600, 60000), ("C08", 1600, 60000),
-                   ("C09", 1600, 60000), ("C10", 1600, 60000), ("C11", 1600, 60000), ("C12", 1600, 60000), ("C13", 1600, 60000),
-                   ("C15", 1600, 60000)]:
-    CAMPAIGNS[_p] = {"variants": [V("full", _q, 90, _t, 1800)], "rule": FULL_RULE, "expect_probes": [], "shrink_s": {"quick": 60, "thorough": 300}}
+for _p, _q, _t in [("C02", 3200, 60000), ("C05", 3200, 60000), ("C06", 3200, 60000), ("C07", 3200, 60000), ("C08", 3200, 60000),
+                   ("C09", 3200, 60000), ("C10", 3200, 60000), ("C11", 3200, 60000), ("C12", 3200, 60000), ("C13", 3200, 60000),
+                   ("C15", 3200, 60000)]:
+    CAMPAIGNS[_p] = {"variants": [V("full", _q, 150, _t, 1800)], "rule": FULL_RULE, "expect_probes": [], "shrink_s": {"quick": 60, "thorough": 300}}
 
-CAMPAIGNS["C19"] = {"variants": [V("config", 1600, 60, 120000, 1500)],
+CAMPAIGNS["C19"] = {"variants": [V("config", 4800, 60, 120000, 1500)],
     "rule": ("one evaluation = one simulated run of a seeded sequence of 5-35 ConfigMap/Secret create/update/delete/resync events (YAML or JSON payloads per config "
              "kind with every field absent/zero/non-zero, malformed keys, wrong-typed fields, non-base64 secrets, unknown keys) against the real ConfigManager, "
              "DefaultsLoader, ConfigMapLoader and SecretLoader with the real client-go informers they create, inside the virtual-time bubble; all three configs are read "
@@ -69,7 +69,7 @@ CAMPAIGNS["C19"] = {"variants": [V("config", 1600, 60, 120000, 1500)],
              "a ConfigMap/Secret layer set a field; distinct = distinct event-sequence hashes."),
     "expect_probes": ["config.malformed", "mon.c19.undecodable"], "shrink_s": {"quick": 45, "thorough": 200}}
 
-CAMPAIGNS["C20"] = {"variants": [V("full", 1200, 100, 40000, 1800)],
+CAMPAIGNS["C20"] = {"variants": [V("full", 1600, 150, 40000, 1800)],
     "rule": FULL_RULE + " For C20 every evaluation executes the plan twice - a fault-free twin (fair scheduler, no faults) and the faulty run - and compares the "
             "observable outcome (scheduled Jobs created, per-Job result, Pods created per Job, TTL deletions, final JobConfig active/queued) modulo time, with all safety "
             "monitors of C02, C05-C13 armed in both.",
@@ -82,6 +82,6 @@ for _p in ("C09", "C05", "C20"):
     CAMPAIGNS[_p]["variants"].append(V("full", 40 if _p == "C09" else 12, 60, 3000, 1500, name="sweep", variant="sweep"))
     CAMPAIGNS[_p]["rule"] += SWEEP_NOTE
 
-CAMPAIGNS["C04"]["variants"].append(V("full", 800, 60, 30000, 1200, name="cron-e2e", variant="full"))
+CAMPAIGNS["C04"]["variants"].append(V("full", 1200, 90, 30000, 1200, name="cron-e2e", variant="full"))
 CAMPAIGNS["C04"]["rule"] += (" The 'cron-e2e' variant runs the same oracle inside the complete controller manager: the real job-config controller persists "
                               "status.lastScheduled from the Jobs that were actually created, the process is crashed and restarted with downtimes around the threshold.")
